@@ -218,6 +218,10 @@ def R3_accessors(run):
             if g is not None and g.self_ty and g.self_ty == fn.self_ty and g.name.startswith(("set_", "update", "reset_")) and not fn.blocks[bi]["c"]:
                 eff.append((bi, g.name + "(..)"))
         skipped = sorted({d for b, d in eff if cfg.success_reach(fn, 0, cut_blocks=[b])})
+        if skipped and not A.atoms(fn):
+            # the same write-backs made in a loop over the elements: nothing but the end of the iteration gets past them
+            cyc = prov_of(fn).cycle_blocks()
+            skipped = sorted({d for b, d in eff if b not in cyc and cfg.success_reach(fn, 0, cut_blocks=[b])})
         run.check("R3", "unconditional@" + path, bool(eff) and not skipped, "%s can return without %s" % (path, ", ".join(skipped) or "any write"), loc=fn.loc(),
                   detail="%d write-backs, each on every path" % len(eff))
     # name-copy rule
